@@ -12,6 +12,9 @@
  *   rename ABI fd1 p1 fd2 p2  symlink ABI oldhex fd newhex    readlink ABI fd pathhex buflen
  *   pathstat ABI fd pathhex   sync|datasync ABI fd            ls
  *   argsizes|args|envsizes|env ABI        clock ABI id        random ABI len         exit ABI code
+ *   inject FAMILY ERRNO    (only in the build linked with fault_wrap.c: while the NEXT call runs, every host function of
+ *                           that family - open, read, write, seek, stat, sync, mkdir, ... - fails with that errno; the
+ *                           observation of that call says how often the fault fired)
  * ABI: p = wasi_snapshot_preview1, u = wasi_unstable */
 #define _GNU_SOURCE
 #include <stdio.h>
@@ -78,6 +81,15 @@ enum { R1 = 0x100, R2 = 0x110, IOV = 0x200, PATH1 = 0x400, WBUF = 0x1000, RBUF =
 #define MEMSIZE (40 * 65536)
 static U8* before;
 static int callno;
+#ifdef VERIF_FAULTS
+extern const char* fault_family; extern int fault_errno, fault_fired;
+static char pending_family[32]; static int pending_errno, was_armed;
+#define ARM() do { if (pending_family[0]) { fault_fired = 0; fault_errno = pending_errno; fault_family = pending_family; was_armed = 1; } else was_armed = 0; } while (0)
+#define DISARM() do { fault_family = NULL; pending_family[0] = 0; } while (0)
+#else
+#define ARM() ((void)0)
+#define DISARM() ((void)0)
+#endif
 
 static int unhex(const char* s, U8* out) {
     int n = 0;
@@ -88,7 +100,11 @@ static int unhex(const char* s, U8* out) {
 static void begin(void) { memset(mem->data + R1, 0xEE, 0x100); memset(mem->data + STAT, 0xEE, 0x100); memcpy(before, mem->data, MEMSIZE); }
 static void report(const char* call, U32 err) {
     U32 a = 0; int first = 1;
-    printf("{\"i\":%d,\"call\":\"%s\",\"errno\":%u,\"writes\":[", callno, call, err);
+    printf("{\"i\":%d,\"call\":\"%s\",\"errno\":%u,", callno, call, err);
+#ifdef VERIF_FAULTS
+    if (was_armed) printf("\"fired\":%d,", fault_fired);
+#endif
+    printf("\"writes\":[");
     while (a < MEMSIZE) {
         if (mem->data[a] != before[a]) {
             U32 b = a;
@@ -153,11 +169,15 @@ int main(int argc, char** argv) {
         if (nt == 0) continue;
         strncpy(cmd, tok[0], 31); cmd[31] = 0;
         if (nt > 1) abi = tok[1][0];
+#ifdef VERIF_FAULTS
+        if (!strcmp(cmd, "inject")) { strncpy(pending_family, tok[1], 31); pending_errno = atoi(tok[2]); continue; }
+#endif
         callno++;
         if (!strcmp(cmd, "ls")) {
             int first = 1; printf("{\"i\":%d,\"call\":\"ls\",\"entries\":[", callno); ls_dir(sandbox, "", 0, &first); printf("]}\n"); OBS_FLUSH(); continue;
         }
         begin();
+        ARM();          /* the marshalling below calls no host function */
         if (!strcmp(cmd, "open")) {
             U32 len = putpath(PATH1, tok[3]); memcpy(before, mem->data, MEMSIZE);
             err = CALL(abi, path_open, (NULL, (U32)strtoul(tok[2], 0, 10), 0, PATH1, len, (U32)strtoul(tok[4], 0, 10), strtoull(tok[5], 0, 16), strtoull(tok[5], 0, 16), (U32)strtoul(tok[6], 0, 10), R1));
@@ -254,6 +274,7 @@ int main(int argc, char** argv) {
             continue;
         } else if (!strcmp(cmd, "exit")) { OBS_FLUSH(); CALL(abi, proc_exit, (NULL, (U32)strtoul(tok[2], 0, 10))); printf("{\"i\":%d,\"call\":\"exit\",\"returned\":true}\n", callno); continue; }
         else { printf("{\"i\":%d,\"unknown\":\"%s\"}\n", callno, cmd); continue; }
+        DISARM();
         report(cmd, err);
     }
     return 0;
